@@ -331,7 +331,7 @@ static void giant_one(int kind) {
 	vh_watchdog_s = 1200;
 	size_t vlen = kind == 0 ? ((size_t) 1 << 30) : ((size_t) 1 << 31); int nent = kind == 0 ? 1 : 2;
 	uint8_t *val = kind == 0 ? malloc(vlen) : calloc(vlen, 1);
-	if (!val) { printf("@error \"giant: out of memory\"\n"); vh_batch_exit(); }
+	if (!val) { printf("@note \"giant case %d skipped: this machine cannot allocate %zu bytes\"\n", kind, vlen); VH_COUNT("giant_skipped_no_memory", 1); vh_case_end(); vh_batch_exit(); }
 	if (kind == 0) { uint64_t st = 0x9e3779b97f4a7c15ull; for (size_t i = 0; i < vlen; i++) val[i] = gz_byte(&st); }
 	int fd = tbl_memfd();
 	struct mtbl_writer_options *o = mtbl_writer_options_init();
